@@ -62,6 +62,8 @@ IT_EDITS = (
     S((spaces.C_ONLY_SQL, True)),
 )
 SQL_EDITS = (
+    ("join", ("K",), None, False, ("a",)),
+    ("join", ("K",), None, True, ("a",)),
     ("calc", "w", ("add", spaces.C_ONLY_IT, L(1))),
     ("chain", ("K",)),
     ("chain", ("Y", ("proj", ("a",)))),
@@ -73,6 +75,8 @@ SQL_EDITS = (
     ("join", ("K",), ("only", "iteration", ("gt", R("d"), R("a"))), False),
 )
 MULTI_EDITS = (
+    ("join", ("K",), None, False, ("a",)),
+    pe(("join", ("K",), None, False, ("a",)), "s", True, True, False),
     ("chain", ("L2",)),
     ("chain", ("E",)),
     ("chain", ("K",)),
@@ -178,6 +182,12 @@ class C20(Check):
             return False
         if tr.rej is None:
             tr.count("edit_well_formed_here_skipped")
+            return False
+        inner = tr.op[1] if tr.op[0] == "pe" else tr.op
+        backtracking = tr.op[0] != "pe" or tr.op[3]
+        if inner[0] == "join" and tr.rej.classes == {"EngineError"} and backtracking and A.engine_restriction(inner[2] or ("plit", True)) is None:
+            # operands in different engines, but backtracking is allowed and may legitimately place the join upstream
+            tr.count("cross_engine_join_with_backtracking_skipped")
             return False
         tr.count("ill_formed_requests")
         tr.nontrivial = tr.depth >= 2
